@@ -169,7 +169,11 @@ def install(ex):
 
 PROFILE = {
     'weights': {'open': 3, 'poll': 0, 'app_send': 5, 'advance': 8, 'pong': 2, 'vanish': 1,
-                'probe_step': 3},
+                'probe_step': 3, 'post': 3, 'ws_send': 2},
+    # other client traffic (MESSAGE packets only): it neither replaces a PONG nor harms a live peer
+    'packet_kinds': [('msg', 1)],
+    'post_modes': [('pkts', 1)],
+    'declared_delta': [0],
     'wrong_step_pct': 1,
     'max_sessions': 4,
     'config': {'ping_interval': st.sampled_from([1, 2.5, 5, 25, [1, 0.5], [5, 5], [2.5, 0]]),
